@@ -91,13 +91,14 @@ def main():
     ap = argparse.ArgumentParser()
     ap.add_argument("--only", nargs="*", default=[])
     ap.add_argument("--seeded", action="store_true")
+    ap.add_argument("--refactorings", action="store_true", help="property-preserving refactorings: expected verdict is held")
     ap.add_argument("--jobs", type=int, default=2)
     ap.add_argument("--tier", default="quick")
     ap.add_argument("--out", default=None)
     a = ap.parse_args()
     entries = []
-    if a.seeded:
-        for meta in sorted(glob.glob(os.path.join(HERE, "seeded", "*", "meta.json"))):
+    if a.seeded or a.refactorings:
+        for meta in sorted(glob.glob(os.path.join(HERE, "refactorings" if a.refactorings else "seeded", "*", "meta.json"))):
             m = json.load(open(meta))
             entries.append((os.path.basename(os.path.dirname(meta)), m.get("checks", [m["property"]]), [], os.path.join(os.path.dirname(meta), "patch.diff")))
     else:
@@ -113,7 +114,12 @@ def main():
             results.append(r)
             chk = {k: (v["verdict"], v["wall"], v["kinds"][:2]) for k, v in r.get("checks", {}).items()}
             print(f"{r['name']:45s} {r['status']:28s} {chk if chk else r.get('error', r.get('repo_tests', ''))}", flush=True)
-    out = a.out or os.path.join(HERE, "vf", "selftest", "results_seeded.json" if a.seeded else "results.json")
+    if a.refactorings:
+        for r in results:
+            vs = [c["verdict"] for c in r.get("checks", {}).values()]
+            if vs:
+                r["status"] = "FALSE_ALARM" if "killed" in vs else "inconclusive" if "inconclusive" in vs else "held_as_expected"
+    out = a.out or os.path.join(HERE, "vf", "selftest", "results_refactorings.json" if a.refactorings else "results_seeded.json" if a.seeded else "results.json")
     prev = {}
     if os.path.exists(out) and a.only:
         prev = {r["name"]: r for r in json.load(open(out))}
